@@ -1228,6 +1228,10 @@ type typeParserParamNode struct {
 func (t *typeParser) parse() typeParserResult {
 	// parse the AST
 	ast, ok := t.parseClassNode()
+	if ok && !ast.hasRequiredParams() {
+		// e.g. a ListType without an element type: not a definition we can interpret
+		ok = false
+	}
 	if !ok {
 		// treat this is a custom type
 		return typeParserResult{
@@ -1306,6 +1310,35 @@ func (t *typeParser) parse() typeParserResult {
 			reversed:    []bool{reversed},
 		}
 	}
+}
+
+// hasRequiredParams reports whether the class, and every class below it, has the
+// parameters its interpretation in parse and asTypeInfo relies on.
+func (class *typeParserClassNode) hasRequiredParams() bool {
+	required := 0
+	switch {
+	case strings.HasPrefix(class.name, MAP_TYPE):
+		required = 2
+	case strings.HasPrefix(class.name, REVERSED_TYPE),
+		strings.HasPrefix(class.name, COMPOSITE_TYPE),
+		strings.HasPrefix(class.name, LIST_TYPE),
+		strings.HasPrefix(class.name, SET_TYPE):
+		required = 1
+	}
+	if len(class.params) < required {
+		return false
+	}
+	isCollections := strings.HasPrefix(class.name, COLLECTION_TYPE)
+	for i := range class.params {
+		if isCollections && class.params[i].name == nil {
+			// the collections of a composite are listed by name
+			return false
+		}
+		if !class.params[i].class.hasRequiredParams() {
+			return false
+		}
+	}
+	return true
 }
 
 func (class *typeParserClassNode) asTypeInfo() TypeInfo {
@@ -1392,7 +1425,15 @@ func (t *typeParser) parseParamNodes() (params []typeParserParamNode, ok bool) {
 
 	t.skipWhitespace()
 
-	for t.input[t.index] != ')' {
+	for {
+		if t.index >= len(t.input) {
+			// the parameter list is not terminated
+			return nil, false
+		}
+		if t.input[t.index] == ')' {
+			break
+		}
+
 		// look for a named param, but if no colon, then we want to backup
 		backupIndex := t.index
 
@@ -1407,7 +1448,7 @@ func (t *typeParser) parseParamNodes() (params []typeParserParamNode, ok bool) {
 
 		t.skipWhitespace()
 
-		if t.input[t.index] == ':' {
+		if t.index < len(t.input) && t.input[t.index] == ':' {
 			// there is a name for this parameter
 
 			// consume the ':'
@@ -1440,7 +1481,7 @@ func (t *typeParser) parseParamNodes() (params []typeParserParamNode, ok bool) {
 
 		t.skipWhitespace()
 
-		if t.input[t.index] == ',' {
+		if t.index < len(t.input) && t.input[t.index] == ',' {
 			// consume the comma
 			t.index++
 
